@@ -51,6 +51,15 @@ def loop_ok(n):
         e = F.strip(le["e"])
         if F.is_call(e, "std::iter::Iterator::next") and le["pat"].get("variant") == "Some":
             return "while-let over " + (F.strip(e["args"][0]).get("ty") or "?")
+    # `loop { match it.next() { Some(..) => .., None => return .. / break } }`: every iteration takes one item, the None arm leaves
+    if cand.get("k") == "Match" and "ForLoopDesugar" not in cand.get("src", "") and F.is_call(F.strip(cand["scrut"]), "std::iter::Iterator::next"):
+        def is_some_pat(pt_):
+            return pt_.get("variant") == "Some" or (pt_.get("k") == "Or" and pt_.get("pats") and all(is_some_pat(x_) for x_ in pt_["pats"]))
+        none_arms = [a_ for a_ in cand["arms"] if a_["pat"].get("variant") == "None" or (a_["pat"].get("k") == "Wild")]
+        some_only = [a_ for a_ in cand["arms"] if a_ not in none_arms]
+        if none_arms and all(FL.diverges(a_["body"]) for a_ in none_arms) and all(is_some_pat(a_["pat"]) for a_ in some_only) \
+                and all(a_["pat"].get("variant") == "None" for a_ in none_arms):
+            return "loop-match over " + (F.strip(F.strip(cand["scrut"])["args"][0]).get("ty") or "?")
     # manual one-item lookahead: `while let Some(x) = la { la = it.next(); .. }` - the carried option is refilled from the iterator
     # as the first, unconditional statement of every iteration and assigned nowhere else: one `next()` per iteration
     if cand.get("k") == "If" and F.strip(cand["cond"]).get("k") == "LetExpr" and cand.get("else") is not None and FL.diverges(cand["else"]):
